@@ -294,8 +294,10 @@ def run(ctx):
     nsim = 0
     if not quick:
         seen = {(c["tag"], c["ctx"], tuple(c["body"])) for c in cases}
+        # (TLC's simulator evaluates the invariants, hence EmitCase, on every successor of the last
+        #  state of a behaviour: each of the 400 random 2-lexeme prefixes comes with all third lexemes)
         for i in range(4):
-            rs, cs = generate(ctx, alpha, 3, emit=3, simulate=30000, seed=ctx.seed * 10 + i, name="opaque-sim-%d" % i)
+            rs, cs = generate(ctx, alpha, 3, emit=3, simulate=400, seed=ctx.seed * 10 + i, name="opaque-sim-%d" % i)
             for c in cs:
                 k = (c["tag"], c["ctx"], tuple(c["body"]))
                 if k not in seen:
@@ -329,6 +331,9 @@ def run(ctx):
         nontrivial += nt
     ctx.note("generation %.0fs, %d parses + %d round trips in %.0fs" % (t1 - t0, nparse, nround, time.time() - t1))
     for f in sorted(fails, key=lambda f: (len(f["case"]["body"]), f["cid"])):
+        if len(ctx.violations) >= 40:
+            ctx.note("%d failing cases in total; only the first 40 distinct ones are written as replays" % len(fails))
+            break
         ctx.violation(key_of(f), what_of(f), {"case": f["case"], "mode": f["mode"], "lang": f["lang"],
                                               "first_seen_in": f.get("seen_in")})
     ctx.set_cover(evaluations=nparse + nround, distinct_nontrivial=nontrivial, exhaustive=True,
